@@ -117,6 +117,7 @@ type interpreter struct {
 	params          map[string]int
 	softFuelAt      int64
 	mapOrderSym     bool
+	softOpaque      bool
 	mapOrderUsed    int
 	fuelIsViolation bool
 }
